@@ -807,23 +807,17 @@ impl Entry {
         let old_root = current_relation.0;
         let new_root = relation.0;
         // Preserve white the current relation has
-        let mut prev = new_root.first_child_or_token();
-        let mut new_head_len = 0;
         // First, strip off any whitespace from the new relation
-        while let Some(p) = prev {
+        while let Some(p) = new_root.first_child_or_token() {
             if p.kind() == WHITESPACE || p.kind() == NEWLINE {
-                new_head_len += 1;
-                prev = p.next_sibling_or_token();
+                p.detach();
             } else {
                 break;
             }
         }
-        let mut new_tail_len = 0;
-        let mut next = new_root.last_child_or_token();
-        while let Some(n) = next {
+        while let Some(n) = new_root.last_child_or_token() {
             if n.kind() == WHITESPACE || n.kind() == NEWLINE {
-                new_tail_len += 1;
-                next = n.prev_sibling_or_token();
+                n.detach();
             } else {
                 break;
             }
@@ -849,12 +843,9 @@ impl Entry {
                 break;
             }
         }
-        new_root.splice_children(0..new_head_len, old_head);
-        let tail_pos = new_root.children_with_tokens().count() - new_tail_len;
-        new_root.splice_children(
-            tail_pos - new_tail_len..tail_pos,
-            old_tail.into_iter().rev(),
-        );
+        new_root.splice_children(0..0, old_head);
+        let tail_pos = new_root.children_with_tokens().count();
+        new_root.splice_children(tail_pos..tail_pos, old_tail.into_iter().rev());
         let index = old_root.index();
         self.0
             .splice_children(index..index + 1, vec![new_root.into()]);
